@@ -19,6 +19,7 @@ package sidecar
 
 import (
 	"fmt"
+	"io"
 	"net/http"
 	"net/url"
 	"strconv"
@@ -101,10 +102,13 @@ func (p *Proxy) ServeHTTP(w http.ResponseWriter, r *http.Request) {
 
 	start := time.Now()
 	var scrapErr error
+	forwarded := &countWriter{w: w}
 	defer func() {
 		if scrapErr != nil {
 			p.log.Errorf(scrapErr.Error())
-			w.WriteHeader(http.StatusBadRequest)
+			if forwarded.n == 0 {
+				w.WriteHeader(http.StatusBadRequest)
+			}
 			if tar != nil {
 				tar.LastScrapeStatistics = scrape.NewStatisticsSeriesResult()
 			}
@@ -118,11 +122,17 @@ func (p *Proxy) ServeHTTP(w http.ResponseWriter, r *http.Request) {
 			tar.ScrapeTimes++
 			tar.SetScrapeErr(start, scrapErr)
 		}
+
+		// part of the body already reached prometheus with status 200, the status code
+		// can not be changed any more: abort the response so that this scrape fails for prometheus too
+		if scrapErr != nil && forwarded.n != 0 {
+			panic(http.ErrAbortHandler)
+		}
 	}()
 
 	scraper := scrape.NewScraper(jobInfo, realURL.String(), p.log)
 	if stopReason == "" {
-		scraper.WithRawWriter(w)
+		scraper.WithRawWriter(forwarded)
 	}
 
 	if err := scraper.RequestTo(); err != nil {
@@ -148,6 +158,19 @@ func (p *Proxy) ServeHTTP(w http.ResponseWriter, r *http.Request) {
 	if tar != nil {
 		tar.UpdateScrapeResult(rs)
 	}
+}
+
+// countWriter counts the bytes that had been written to w
+type countWriter struct {
+	w io.Writer
+	n int
+}
+
+// Write implement io.Writer
+func (c *countWriter) Write(p []byte) (int, error) {
+	n, err := c.w.Write(p)
+	c.n += n
+	return n, err
 }
 
 func translateURL(u url.URL) (job string, hash string, realURL url.URL) {
